@@ -21,9 +21,14 @@ pub enum FSite {
     EvCycle = 9,
     EvCancel = 10,
     EvOther = 11,
+    /// `Hash` / `Eq` of an interned key
+    KeyHash = 12,
+    KeyEq = 13,
+    /// inside a body, after a read / call / creation returned
+    Mid = 14,
 }
 
-pub const FSITE_NAMES: [&str; 12] = [
+pub const FSITE_NAMES: [&str; 15] = [
     "Body",
     "Eq",
     "Clone",
@@ -36,6 +41,9 @@ pub const FSITE_NAMES: [&str; 12] = [
     "EvCycle",
     "EvCancel",
     "EvOther",
+    "KeyHash",
+    "KeyEq",
+    "Mid",
 ];
 
 #[derive(Default)]
